@@ -96,6 +96,11 @@ class ProtocolHandler:
         self, message: JSONRPCMessage, session_id: Optional[str]
     ):
         """Handle initialize request."""
+        # Without an id this cannot be answered (it is a notification): do not
+        # record a session that nobody would ever be told about
+        if getattr(message, "id", None) is None:
+            return None, None
+
         params = getattr(message, "params", None) or {}
         client_info = params.get("clientInfo", {})
         protocol_version = params.get("protocolVersion", "2025-03-26")
